@@ -42,9 +42,8 @@ def run(ctx):
                       "(membership in the outcome set over Go map orders); adc/prune/wild: pure differential cases incl. malformed paths and regexp metacharacters. "
                       "distinct = distinct inputs (all exercise path comparison or map merging)")
     ctx.trusted = vlib.STD_TRUSTED + [
-        "modelled: IsPathBelow, GetParentPath, computeChange, AddDeleteChildren (with its in-place mutation), applyChangeToConfig, the candidate/rollback construction of "
-        "reconcileValidate, reconcileCommit's merge, reconcileApply's updated values, PrunePathValues/PrunePathMap, configuration store()/populate (one Atomix map for "
-        "committed and applied values), MatchWildcardRegexp, getUpdate's filter. Not modelled here: the textual path codec (C16; the theorems assume well-formed "
+        "modelled (repaired code): IsPathBelow, computeChange, AddDeleteChildren (with its in-place mutation), applyChangeToConfig, the candidate/rollback construction of "
+        "reconcileValidate, reconcileCommit's merge, reconcileApply's updated values, PrunePathValues/PrunePathMap, configuration store()/clearDeletedAncestors/populate (separate committed and applied Atomix maps, inline copies in the entry), MatchWildcardRegexp, getUpdate's filter. Not modelled here: the textual path codec (C16; the theorems assume well-formed "
         "canonical paths), value codec (C17), JSON tree (C18), the reconcilers' scheduling (C01/C02/C09), rollback (C06)",
         "the reference semantics Spec/Gnmi.v (steps = element names and key selectors; '...' stands for one or more whole elements) is part of what the property means here"]
     ctx.notes = ["histories use string leaves over a schema with containers, single- and two-key lists and sibling names that are string prefixes of each other",
